@@ -338,6 +338,12 @@ func (gb *gcpBalancer) newSubConn() {
 	gb.mu.Lock()
 	defer gb.mu.Unlock()
 
+	// The caller checked the pool size before taking this lock; check it again now that
+	// nobody else can add a subconn in between, so that the pool never grows above maxSize.
+	if maxSize := int(gb.cfg.GetChannelPool().GetMaxSize()); maxSize != 0 && len(gb.scRefs) >= maxSize {
+		return
+	}
+
 	// there are chances the newly created subconns are still connecting,
 	// we can wait on those new subconns.
 	for _, scState := range gb.scStates {
